@@ -1,5 +1,6 @@
 import IsoMdl.Driver.Age
 import IsoMdl.Driver.Session
+import IsoMdl.Driver.Issuance
 /-
 Line-protocol driver of the executable model: one operation per input line, one observation per
 output line.  Unknown or malformed operations print `bad-op` (never a default value).
@@ -8,19 +9,22 @@ open IsoMdl.Driver
 
 structure DState where
   world : Option IsoMdl.Session.World := none
-  saved : Option IsoMdl.Session.World := none
+  saved : List (String × IsoMdl.Session.World) := []
 
-def stateless : List (List String → Option String) := [ageOp, ivOp, c13Op, c06Op, eqOp]
+def stateless : List (List String → Option String) := [ageOp, ivOp, c13Op, c06Op, eqOp, issuanceOp]
 
 def step (st : DState) (line : String) : DState × String :=
   let toks := (line.trimAscii.toString.splitOn " ").filter (· ≠ "")
   match stateless.findSome? (fun h => h toks) with
   | some out => (st, out)
   | none =>
-    if toks == ["sess.save"] then ({ st with saved := st.world }, "saved")
-    else if toks == ["sess.load"] then
-      match st.saved with
-      | some w => ({ st with world := some w }, summary w)
+    if toks.head? == some "sess.save" && toks.length == 2 then
+      match st.world with
+      | some w => ({ st with saved := (toks[1]!, w) :: st.saved }, "saved")
+      | none => (st, "bad-op")
+    else if toks.head? == some "sess.load" && toks.length == 2 then
+      match st.saved.find? (fun e => e.1 == toks[1]!) with
+      | some (_, w) => ({ st with world := some w }, summary w)
       | none => (st, "bad-op")
     else
     match sessOp st.world toks with
